@@ -50,7 +50,9 @@ Step ==
          a0 == IF isReset THEN Acc0 ELSE acc
      IN /\ st' = post
         /\ acc' = (IF isReset THEN AccNext(Acc0, post, e, post) ELSE AccNext(acc, st, e, post))
-        /\ (IF isReset THEN CheckInv(post, e, l) ELSE CheckStep(st, e, post, a0, l))
+        \* "= TRUE" makes TLC evaluate the predicates as one expression (short-circuit semantics) instead of
+        \* decomposing their disjunctions into alternative next-state branches
+        /\ (IF isReset THEN CheckInv(post, e, l) ELSE CheckStep(st, e, post, a0, l)) = TRUE
         /\ l' = l + 1
 
 Next ==
